@@ -56,3 +56,57 @@ pub fn h_c17_move_sheet() {
     }
     reach("C17.move");
 }
+
+// ---- values: a rename or a move changes no computed value (real evaluator)
+use crate::cell::CellValue;
+use std::collections::HashMap;
+
+const C17_VALS: [f64; 3] = [1.5, -2.0, 0.25];
+fn value_sheets(x: f64, y: f64) -> Option<Model<'static>> {
+    let mut s2 = empty_sheet("Sheet2", 2);
+    let mut r1: HashMap<i32, Cell> = HashMap::new();
+    r1.insert(1, Cell::NumberCell { v: x, s: 0 });
+    s2.sheet_data.insert(1, r1);
+    let mut s3 = empty_sheet("Sheet3", 3);
+    let mut r2: HashMap<i32, Cell> = HashMap::new();
+    r2.insert(2, Cell::NumberCell { v: y, s: 0 });
+    s3.sheet_data.insert(2, r2);
+    let mut model = model_from_workbook(workbook_with_cells(vec![empty_sheet("Sheet1", 1), s2, s3]));
+    if model.set_user_input(0, 1, 1, "=Sheet2!A1+Sheet3!$B$2".to_string()).is_err() { return None; }
+    if model.set_user_input(1, 1, 2, "=A1-Sheet1!A1".to_string()).is_err() { return None; }
+    if model.set_user_input(2, 5, 5, "=SUM(Sheet2!A1:B1)".to_string()).is_err() { return None; }
+    model.evaluate();
+    Some(model)
+}
+/// the three formula cells, found again by sheet name after a move
+fn three_values(m: &Model, names: [&str; 3]) -> [Result<CellValue, String>; 3] {
+    let find = |n: &str| { let mut i = 0; let mut at = 9; while i < 3 { if m.workbook.worksheets[i].get_name() == n { at = i as u32; } i += 1; } at };
+    [m.get_cell_value_by_index(find(names[0]), 1, 1), m.get_cell_value_by_index(find(names[1]), 1, 2), m.get_cell_value_by_index(find(names[2]), 5, 5)]
+}
+pub fn h_c17_values_kept() {
+    let (x, y) = (C17_VALS[any_usize_to(2)], C17_VALS[any_usize_to(2)]);
+    let entered = value_sheets(x, y);
+    check("C17.values.entered", entered.is_some());
+    let mut model = match entered { Some(m) => m, None => return };
+    let before = three_values(&model, ["Sheet1", "Sheet2", "Sheet3"]);
+    let rename = any_bool();
+    let which = any_u32();
+    assume(which < 3);
+    if rename {
+        let n = any_usize_to(NEW_NAMES.len());
+        let new_name = if n < NEW_NAMES.len() { NEW_NAMES[n] } else { UPPER[which as usize] };
+        if model.rename_sheet_by_index(which, new_name).is_ok() {
+            model.evaluate();
+            let names = [if which == 0 { new_name } else { "Sheet1" }, if which == 1 { new_name } else { "Sheet2" }, if which == 2 { new_name } else { "Sheet3" }];
+            check("C17.values.rename_keeps_values", three_values(&model, names) == before);
+        }
+    } else {
+        let to = any_u32();
+        assume(to < 3);
+        if model.move_sheet(which, to).is_ok() {
+            model.evaluate();
+            check("C17.values.move_keeps_values", three_values(&model, ["Sheet1", "Sheet2", "Sheet3"]) == before);
+        }
+    }
+    reach("C17.values");
+}
